@@ -9,7 +9,8 @@ import argparse, json, os, random, re, subprocess, time
 import z3
 
 HERE = os.path.dirname(os.path.abspath(__file__))
-BACKEND = '/repo/src/backend'
+import os as _os
+BACKEND = _os.path.join(_os.environ.get('VERIF_REPO', '/repo'), 'src/backend')
 M32 = 0xffffffff
 
 
